@@ -300,7 +300,58 @@ class Inliner:
         self.counter = 0
         self.inlined = []
 
+    def _gen_ok(self, m: ast.FunctionDef):
+        """a generator helper that can be fused into a for-loop: exactly one yield site (after merging an if/else pair of
+        twin yields), whole-statement yields, no return / try / nested def, plain parameters"""
+        if m.args.vararg or m.args.kwarg or any(not (isinstance(d, ast.Name) and d.id == "staticmethod") for d in m.decorator_list):
+            return None
+        if any(isinstance(x, ast.Return | ast.Try | ast.Await | ast.Nonlocal | ast.Global | ast.Lambda) or (isinstance(x, ast.FunctionDef) and x is not m) for x in ast.walk(m)):
+            return None
+        body = copy.deepcopy(m.body)
+        if body and isinstance(body[0], ast.Expr) and isinstance(body[0].value, ast.Constant):
+            body = body[1:]
+
+        def merge(blk):
+            for k, st in enumerate(blk):
+                for fld in ("body", "orelse"):
+                    sub = getattr(st, fld, None)
+                    if isinstance(sub, list):
+                        merge(sub)
+                if isinstance(st, ast.If) and len(st.body) == 1 and len(st.orelse) == 1:
+                    a, b = st.body[0], st.orelse[0]
+                    if isinstance(a, ast.Expr) and isinstance(b, ast.Expr) and type(a.value) is type(b.value) and isinstance(a.value, ast.Yield | ast.YieldFrom) and a.value.value is not None and b.value.value is not None:
+                        y = type(a.value)(value=ast.copy_location(ast.IfExp(test=st.test, body=a.value.value, orelse=b.value.value), st))
+                        blk[k] = ast.copy_location(ast.Expr(value=ast.copy_location(y, st)), st)
+
+        merge(body)
+        ys = [x for st in body for x in ast.walk(st) if isinstance(x, ast.Yield | ast.YieldFrom)]
+        stmt_ys = []
+        for st in body:
+            for x in ast.walk(st):
+                for fld in ("body", "orelse", "finalbody"):
+                    blk = getattr(x, fld, None)
+                    if isinstance(blk, list):
+                        stmt_ys.extend(b for b in blk if isinstance(b, ast.Expr) and isinstance(b.value, ast.Yield | ast.YieldFrom))
+        stmt_ys.extend(b for b in body if isinstance(b, ast.Expr) and isinstance(b.value, ast.Yield | ast.YieldFrom))
+        stmt_ys = list({id(b): b for b in stmt_ys}.values())
+        if len(ys) != 1 or len(stmt_ys) != 1 or ys[0].value is None:
+            return None
+        return body
+
     def collect(self):
+        self.gens = {}
+        if self.baseline is not None:
+            for n in self.tree.body:
+                if isinstance(n, ast.FunctionDef) and f"{self.modname}.{n.name}" not in self.baseline and any(isinstance(x, ast.Yield | ast.YieldFrom) for x in ast.walk(n)):
+                    b = self._gen_ok(n)
+                    if b is not None:
+                        self.gens[(None, n.name)] = (n, b)
+                elif isinstance(n, ast.ClassDef):
+                    for m in n.body:
+                        if isinstance(m, ast.FunctionDef) and f"{self.modname}.{n.name}.{m.name}" not in self.baseline and any(isinstance(x, ast.Yield | ast.YieldFrom) for x in ast.walk(m)):
+                            b = self._gen_ok(m)
+                            if b is not None:
+                                self.gens[(n.name, m.name)] = (m, b)
         if self.baseline is None:
             return
         for n in self.tree.body:
@@ -418,9 +469,98 @@ class Inliner:
         return pre + stmts, ret
 
     # ------------------------------------------------------------------ rewriting
+    def _fuse_generator(self, loop: ast.For, cls_name):
+        """for X in G(args): BODY   with G a single-yield-site generator helper   ->   G's body with the yield replaced by
+        (X = value; BODY) resp. (for X in iterable: BODY).  Exactly the interleaving a generator has; not applied when BODY can
+        leave the loop (break / return) or the loop has an else clause."""
+        c = loop.iter
+        if not isinstance(c, ast.Call) or loop.orelse:
+            return None
+        f = c.func
+        key = None
+        recv = None
+        if isinstance(f, ast.Name) and (None, f.id) in self.gens:
+            key = (None, f.id)
+        elif isinstance(f, ast.Attribute) and isinstance(f.value, ast.Name):
+            if f.value.id in ("self", "cls") and (cls_name, f.attr) in self.gens:
+                key, recv = (cls_name, f.attr), f.value
+            elif (f.value.id, f.attr) in self.gens:
+                key = (f.value.id, f.attr)
+        if key is None:
+            return None
+        for x in loop.body:
+            for y in ast.walk(x):
+                if isinstance(y, ast.Return | ast.Yield | ast.YieldFrom):
+                    return None
+        # a break directly in BODY (not inside a nested loop) would leave only the inner loop after fusion
+        def has_break(stmts):
+            for st in stmts:
+                if isinstance(st, ast.Break):
+                    return True
+                if isinstance(st, ast.For | ast.While):
+                    continue
+                for fld in ("body", "orelse", "finalbody"):
+                    sub = getattr(st, fld, None)
+                    if isinstance(sub, list) and has_break(sub):
+                        return True
+                if isinstance(st, ast.Try) and any(has_break(h.body) for h in st.handlers):
+                    return True
+            return False
+
+        if has_break(loop.body):
+            return None
+        m, gbody = self.gens[key]
+        h = _Helper(m, key[0], "gen")
+        h.body = gbody
+        h.stmts = gbody
+        h.ret = None
+        b = self._bind(h, c, recv)
+        if b is None:
+            return None
+        mapping, pre = b
+        self.counter += 1
+        locs = set()
+        for st in gbody:
+            for x in ast.walk(st):
+                if isinstance(x, ast.Name) and isinstance(x.ctx, ast.Store):
+                    locs.add(x.id)
+        locs -= set(h.params) | set(h.kwonly)
+        rename = {v: f"{v}__{m.name}{self.counter}" for v in locs}
+        for p_, a_ in list(mapping.items()):
+            if a_ is None:
+                return None
+        sub = _Subst(mapping, rename)
+        new_body = [sub.visit(copy.deepcopy(st)) for st in gbody]
+        target, BODY = loop.target, loop.body
+
+        def place(blk):
+            for k, st in enumerate(blk):
+                if isinstance(st, ast.Expr) and isinstance(st.value, ast.Yield):
+                    blk[k:k + 1] = [ast.Assign(targets=[copy.deepcopy(target)], value=st.value.value), *BODY]
+                    return True
+                if isinstance(st, ast.Expr) and isinstance(st.value, ast.YieldFrom):
+                    blk[k] = ast.For(target=copy.deepcopy(target), iter=st.value.value, body=BODY, orelse=[])
+                    return True
+                for fld in ("body", "orelse", "finalbody"):
+                    subb = getattr(st, fld, None)
+                    if isinstance(subb, list) and place(subb):
+                        return True
+            return False
+
+        if not place(new_body):
+            return None
+        out = [_set_loc(x, loop) for x in pre] + new_body
+        for x in out:
+            for y in ast.walk(x):
+                if not hasattr(y, "lineno"):
+                    ast.copy_location(y, loop)
+            ast.fix_missing_locations(x)
+        self.inlined.append(f"{self.modname}.{(key[0] + '.') if key[0] else ''}{key[1]}")
+        return out
+
     def run(self, rounds=3):
         self.collect()
-        if not self.helpers:
+        if not self.helpers and not self.gens:
             return 0
         total = 0
         for _ in range(rounds):
@@ -468,6 +608,11 @@ class Inliner:
                 hnd.body = self._block(hnd.body, cls_name, fn)
         if isinstance(s, ast.FunctionDef | ast.ClassDef):
             return [s]
+        if isinstance(s, ast.For) and getattr(self, "gens", None):
+            fused = self._fuse_generator(s, cls_name)
+            if fused is not None:
+                self.counter_inl = getattr(self, "counter_inl", 0) + 1
+                return fused
         # which expression parts of this statement are evaluated exactly once, before the statement's effect?
         if isinstance(s, ast.If | ast.While):
             holder, roots = s, ["test"]
@@ -536,6 +681,34 @@ class Inliner:
                         self.counter_inl += 1
                         self.inlined.append(h.qual)
                         return hoisted + self._block(stmts, cls_name, fn)
+        # v = helper(..., v, ...) where the helper reassigns that parameter and returns it: the parameter *is* v
+        if isinstance(s, ast.Assign) and len(s.targets) == 1 and isinstance(s.targets[0], ast.Name) and isinstance(s.value, ast.Call):
+            h, recv = self._match(s.value, cls_name)
+            if h is not None and h.node is not fn and isinstance(h.ret, ast.Name) and h.ret.id in h.params and h.stmts:
+                tgt = s.targets[0].id
+                pidx = [p_ for p_ in h.params if not (h.cls is not None and not h.static and p_ == h.params[0])]
+                actual = dict(zip(pidx, s.value.args))
+                actual.update({k.arg: k.value for k in s.value.keywords if k.arg})
+                a_ = actual.get(h.ret.id)
+                body_names = {x.id for st in h.body for x in ast.walk(st) if isinstance(x, ast.Name)}
+                if isinstance(a_, ast.Name) and a_.id == tgt and (tgt == h.ret.id or tgt not in body_names):
+                    s.value.args = [visit_expr(a) for a in s.value.args]
+                    b = self._bind(h, s.value, recv)
+                    if b is not None:
+                        mapping, pre = b
+                        self.counter += 1
+                        rename = {v: f"{v}__{h.node.name}{self.counter}" for v in h.locals_()}
+                        # drop the temp that _bind made for the reassigned parameter: it is the target itself
+                        pre = [x for x in pre if not (isinstance(x, ast.Assign) and x.targets[0].id.startswith(h.ret.id + "__"))]
+                        mapping.pop(h.ret.id, None)
+                        rename[h.ret.id] = tgt
+                        if all(v is not None for v in mapping.values()):
+                            sub = _Subst(mapping, rename)
+                            stmts = [_set_loc(sub.visit(copy.deepcopy(x)), s.value) for x in h.stmts]
+                            pre = [_set_loc(x, s.value) for x in pre]
+                            self.inlined.append(h.qual)
+                            self.counter_inl = getattr(self, "counter_inl", 0) + 1
+                            return hoisted + self._block(pre + stmts, cls_name, fn)
         # a, b, c = helper(...) where the helper returns a tuple of its (distinct) locals: those locals *are* a, b, c
         if isinstance(s, ast.Assign) and len(s.targets) == 1 and isinstance(s.targets[0], ast.Tuple) and all(isinstance(e, ast.Name) for e in s.targets[0].elts) and isinstance(s.value, ast.Call):
             h, recv = self._match(s.value, cls_name)
